@@ -8,7 +8,7 @@
 // be synced then receives the current value and `synced` at the next `synced` of the link and every later event in order; a
 // consumer that did not ask receives every event after its `linked`, in order; nothing is reordered, duplicated or lost for
 // the consumers that stay, whoever else attaches or goes away.
-use super::interpretation::value_interpretation;
+use super::interpretation::{value_interpretation, NoInterpretation};
 use super::*;
 use crate::downlink::failure::InfallibleStrategy;
 use crate::timeout_coord::downlink_timeout_coordinator;
@@ -47,7 +47,9 @@ async fn settle() {
     }
 }
 
-async fn run_sequence(seq: &[Op]) -> Result<bool, String> {
+// multi_frame: the interpretation of a map downlink (the state is spread over many frames): every event is forwarded at once
+// also to consumers still waiting for synced, and synced carries no value
+async fn run_sequence(seq: &[Op], multi_frame: bool) -> Result<bool, String> {
     let (msg_tx, msg_rx) = byte_channel::byte_channel(non_zero_usize!(4096));
     let mut remote = FramedWrite::new(msg_tx, ResponseMessageEncoder);
     let (consumers_tx, consumers_rx) = mpsc::channel(8);
@@ -59,7 +61,11 @@ async fn run_sequence(seq: &[Op]) -> Result<bool, String> {
         downlink_buffer_size: non_zero_usize!(4096),
     };
     let (read_vote, _write_vote, _vote_rx) = downlink_timeout_coordinator();
-    let task = tokio::spawn(read_task(msg_rx, consumers_rx, config, value_interpretation(), InfallibleStrategy, read_vote));
+    let task = if multi_frame {
+        tokio::spawn(read_task(msg_rx, consumers_rx, config, NoInterpretation, InfallibleStrategy, read_vote))
+    } else {
+        tokio::spawn(read_task(msg_rx, consumers_rx, config, value_interpretation(), InfallibleStrategy, read_vote))
+    };
     let addr = Uuid::from_u128(7);
     let path = || RelativeAddress::new("/node", "lane");
     let mut consumers: Vec<Consumer> = vec![];
@@ -112,7 +118,7 @@ async fn run_sequence(seq: &[Op]) -> Result<bool, String> {
                 remote.send(ResponseMessage::<&str, i32, &[u8]>::event(addr, path(), v)).await.map_err(|e| format!("step {step}: {e}"))?;
                 current = Some(v);
                 for c in consumers.iter_mut() {
-                    if c.linked && (!c.sync || c.synced) {
+                    if c.linked && (multi_frame || !c.sync || c.synced) {
                         c.expected.push(format!("event({v})"));
                     }
                 }
@@ -121,7 +127,7 @@ async fn run_sequence(seq: &[Op]) -> Result<bool, String> {
                 remote.send(ResponseMessage::<&str, i32, &[u8]>::synced(addr, path())).await.map_err(|e| format!("step {step}: {e}"))?;
                 for c in consumers.iter_mut() {
                     if c.linked && c.sync && !c.synced {
-                        if let Some(v) = current {
+                        if let (Some(v), false) = (current, multi_frame) {
                             c.expected.push(format!("event({v})"));
                         }
                         c.expected.push("synced".into());
@@ -187,12 +193,18 @@ fn downlink_read_task_contract() {
         loop {
             let seq: Vec<Op> = idx[..len].iter().map(|i| ops[*i]).collect();
             evaluations += 1;
-            match rt.block_on(run_sequence(&seq)) {
-                Ok(true) => nontrivial += 1,
-                Ok(false) => {}
-                Err(e) => {
-                    failure = Some(format!("{:?} => {}", seq, e));
-                    break 'outer;
+            for multi_frame in [false, true] {
+                // (the multi-frame interpretation is explored one level less deep)
+                if multi_frame && len == depth {
+                    continue;
+                }
+                match rt.block_on(run_sequence(&seq, multi_frame)) {
+                    Ok(true) => nontrivial += 1,
+                    Ok(false) => {}
+                    Err(e) => {
+                        failure = Some(format!("{} {:?} => {}", if multi_frame { "multi-frame (map) interpretation" } else { "value interpretation" }, seq, e));
+                        break 'outer;
+                    }
                 }
             }
             let mut k = 0;
